@@ -596,6 +596,33 @@ Proof.
   injection H as H _. exact (f_equal (@length _) H).
 Qed.
 
+(* a failing close: no completion reply.  (The converse reading: a 226 was sent => every close
+   succeeded => C01_visible_after_226.) *)
+Lemma no_reply_step_keeps : forall l v,
+  Forall (fun s => s <> SReply) l -> v_at_reply (fold_left v_step l v) = v_at_reply v.
+Proof.
+  induction l as [|s r IH]; intros v H; [reflexivity|].
+  inversion H as [|? ? Hs Hr]; subst. cbn [fold_left]. rewrite (IH _ Hr).
+  destruct s; try reflexivity. now elim Hs.
+Qed.
+
+Lemma write_steps_no_reply : forall blocks flushes, Forall (fun s => s <> SReply) (write_steps blocks flushes).
+Proof.
+  induction blocks as [|d r IH]; intros flushes; cbn [write_steps]; constructor; [discriminate|apply IH].
+Qed.
+
+Theorem close_failure_no_reply : forall ctx m off old blocks flushes k,
+  v_at_reply (v_run old (stor_script_close_fails ctx m off blocks flushes k)) = None.
+Proof.
+  intros. unfold v_run. rewrite no_reply_step_keeps; [reflexivity|].
+  unfold stor_script_close_fails. repeat (apply Forall_app; split).
+  - constructor; [discriminate|constructor].
+  - destruct (off =? 0); repeat constructor; discriminate.
+  - apply write_steps_no_reply.
+  - apply Forall_forall. intros s Hs. apply in_map_iff in Hs. destruct Hs as [c [<- _]].
+    destruct (String.eqb c "STREAM"); discriminate.
+Qed.
+
 Lemma reply_inside_ctx_stale :
   v_at_reply (v_run [9%Z] (stor_script false ["FILE"; "STREAM"] WB 0 [[1%Z]; [2%Z]] []))
   = Some ([], true).
